@@ -195,13 +195,17 @@ pub fn minimise(script: &Script, v: &Violation, budget: usize) -> (Script, Viola
     let mut progress = true;
     while progress && tries < budget {
         progress = false;
-        for i in 0..best.stmts.len() {
+        let mut i = 0;
+        while i < best.stmts.len() {
             let cands = shrink_ex(&best.stmts[i].ex);
             for c in cands {
                 if tries >= budget {
                     break;
                 }
                 let mut cand = best.clone();
+                if i >= cand.stmts.len() {
+                    break;
+                }
                 cand.stmts[i].ex = c;
                 tries += 1;
                 if let Some(nv) = still_fails(&cand, &class) {
@@ -214,6 +218,7 @@ pub fn minimise(script: &Script, v: &Violation, budget: usize) -> (Script, Viola
                     }
                 }
             }
+            i += 1;
         }
     }
     (best, best_v)
